@@ -39,6 +39,29 @@ func main() {
 	r.Bound("multiplications", muls)
 	r.Bound("squarings", squares)
 
+	// Applicability: the exponent-domain reading is only meaningful when Invert IS a chain of Mul/Square calls. A
+	// chain maps the start exponent e to E*e (mod 2^256) for one fixed E; any other algorithm (a binary or safegcd
+	// inversion, a call of another primitive on the way) does not, and its "exponent" is meaningless - neither a
+	// confirmation nor a violation. Linearity is tested on the start exponents 2 and 3.
+	linear := muls+squares > 0
+	mod := new(big.Int).Lsh(big.NewInt(1), 256)
+
+	for _, e := range []uint64{2, 3} {
+		var o scalar.MontgomeryDomainFieldElement
+
+		scalar.Invert(&o, scalar.MontgomeryDomainFieldElement{e, 0, 0, 0})
+
+		w := new(big.Int).Mul(got, new(big.Int).SetUint64(e))
+		if ref.FromLimbs([4]uint64(o)).Cmp(w.Mod(w, mod)) != 0 {
+			linear = false
+		}
+	}
+
+	if !linear {
+		r.Incomplete("scalar.Invert of this tree is not a chain of Mul/Square calls (the exponent-domain run is not linear in the start exponent): the exponent-domain argument does not apply and this part decides nothing; inversion is covered by the value sweeps of the main part only")
+		os.Exit(r.Finish())
+	}
+
 	if got.Cmp(want) != 0 || over != 0 {
 		r.Violation("scalar.Invert/addition-chain-computes-wrong-exponent", fmt.Sprintf("chain computes s^%x (overflows %d), want s^%x", got, over, want), map[string]string{"op": "chain"})
 	}
